@@ -649,7 +649,10 @@ fn step(inst: &mut Instance, a: Act, last: Option<&Verdict>) -> StepObs {
     let verdict = inst.work();
     let activity = verif::activity() - a0;
     let live_windows = verif::live_window_count();
-    inst.observe();
+    if !matches!(verdict, Verdict::Panic(_)) {
+        // After a panic inside work() the stream mutexes may be poisoned.
+        inst.observe();
+    }
     StepObs {
         act: a,
         verdict,
